@@ -555,3 +555,10 @@ func (c *Client) ValidateTx(tx []byte) (string, error) {
 	err := c.Call("ValidateTx", &tx, &r)
 	return r, err
 }
+
+func (s *Svc) Stress(q *StressReq, r *StressRsp) error { *r = *s.n.Stress(q); return nil }
+func (c *Client) Stress(q *StressReq) (*StressRsp, error) {
+	var r StressRsp
+	err := c.Call("Stress", q, &r)
+	return &r, err
+}
